@@ -122,7 +122,7 @@ class BetdaqWorld:
         self.script = list(script)
         self.hooks = hooks
         self.faults = list(faults or [])
-        self.budgets = dict(fill=1)
+        self.budgets = dict(fill=1, foreign=1)
         self.budgets.update(budgets or {})
         self.errors = []
         self.local = threading.local()
@@ -274,6 +274,8 @@ class BetdaqWorld:
                 break
         if self.api.seq > self.api.polled_seq:
             ev.append(("POLL",))
+        if self.budgets.get("foreign", 0) > 0 and self.api.orders:
+            ev.append(("FOREIGN",))  # an order of the same account that this instance does not know shows up (matched)
         if self.budgets["fill"] > 0:
             for o in sorted(self.api.orders.values(), key=lambda d: d["order_id"]):
                 if o["status"] == "Unmatched":
@@ -305,6 +307,11 @@ class BetdaqWorld:
         elif k == "POLL":
             d = self.api.diff()
             self.dispatch(events.CurrentOrdersEvent(d, exchange=ExchangeType.BETDAQ))
+        elif k == "FOREIGN":
+            self.budgets["foreign"] -= 1
+            fo = dict(order_id=9900 + self.budgets["foreign"], customer_reference="123456789012345678", status="Matched", price=5.0, size=50.0, matched_size=50.0, remaining_size=0.0, matched_price=5.0, polarity=1, runner_id=701)
+            self.api._bump(fo)
+            self.api.orders[fo["order_id"]] = fo
         elif k == "FILL":
             self.budgets["fill"] -= 1
             self.api.fill(self.api.orders[ev[1]], ev[2] == "all")
@@ -398,6 +405,12 @@ class BetdaqLife(L.Life):
                         self.v("C03.c", ("handler", "complete-flag", L.sname(o.status)), "order reported complete is live again (%s)" % L.sname(o.status), once=(id(o), "live"))
                 elif o.complete and L.sname(o.status) == "EXECUTION_COMPLETE":
                     self.sent_complete[id(o)] = o.size_matched
+                    # "reported complete" is a report about THIS order: while the exchange holds it unmatched with
+                    # size remaining and nothing of ours is in flight for it, no report can have completed it
+                    x = w.api.orders.get(o.bet_id) if o.bet_id is not None else None
+                    busy = any(t.state != "done" and t.package is not None and any(y is o for y in t.package._orders) for t in w.pool.tasks)
+                    if x is not None and x["status"] == "Unmatched" and x["remaining_size"] > 0 and not busy:
+                        self.v("C03.c", ("handler", "complete-flag", "exchange-unmatched"), "order reported complete while the exchange holds it unmatched with %s remaining (report of another order applied to it?)" % x["remaining_size"], once=(id(o), "exch"))
 
 
 A = dict(sel=1, side="BACK", price=2.0, size=2.0)
